@@ -165,6 +165,7 @@ func (r *run) capture(c fiber.Ctx, cs Case, probe bool) {
 		// what rewrite / method-override middleware does while the handler still holds the values it read before
 		c.Path("/" + strings.Repeat("z", len("/u/"+cs.ID+"/"+cs.Rest)-1)) // as long as the original path: fits its buffer
 		c.Method("PUT")
+		c.Path("/" + strings.Repeat("y", len("/u/"+cs.ID+"/"+cs.Rest)-1)) // and once more (two rewrite rules in a row)
 	}
 	for _, cp := range caps {
 		if cp.val != cp.orig {
